@@ -13,6 +13,7 @@ import (
 	"net/url"
 	"reflect"
 	"regexp"
+	"slices"
 	"strings"
 )
 
@@ -514,6 +515,23 @@ func (r *resolver) resolveRefs(rs *Resolved) error {
 	return nil
 }
 
+// embedded looks for a schema resource with the given URI among the resources
+// embedded in the documents loaded so far. It returns the schema and the
+// Resolved of the document that contains it, or nil, nil.
+func (r *resolver) embedded(uri string) (*Schema, *Resolved) {
+	keys := make([]string, 0, len(r.loaded))
+	for k := range r.loaded {
+		keys = append(keys, k)
+	}
+	slices.Sort(keys) // for determinism
+	for _, k := range keys {
+		if s := r.loaded[k].resolvedURIs[uri]; s != nil {
+			return s, r.loaded[k]
+		}
+	}
+	return nil, nil
+}
+
 // resolveRef resolves the reference ref, which is either s.Ref or s.DynamicRef.
 func (r *resolver) resolveRef(rs *Resolved, s *Schema, ref string) (_ *Schema, dynamicFragment string, err error) {
 	refURI, err := url.Parse(ref)
@@ -544,6 +562,16 @@ func (r *resolver) resolveRef(rs *Resolved, s *Schema, ref string) (_ *Schema, d
 			// ancestor in a reference cycle), so its resolvedInfos may not be in rs
 			// yet; the anchor lookup below needs them.
 			for s, i := range lrs.resolvedInfos {
+				if rs.resolvedInfos[s] == nil {
+					rs.resolvedInfos[s] = i
+				}
+			}
+		} else if es, ers := r.embedded(fraglessRefURI.String()); es != nil {
+			// The URI names a resource embedded in a document we already have
+			// (for example a loaded document referring back to a subschema of the
+			// root that has its own $id). Don't ask the loader for it.
+			referencedSchema = es
+			for s, i := range ers.resolvedInfos {
 				if rs.resolvedInfos[s] == nil {
 					rs.resolvedInfos[s] = i
 				}
